@@ -1,7 +1,7 @@
 (* Evaluation entry points used by the correspondence check of C19 (harness/c19.py).
    Results are lists of small integers:  outcome = [0] (no exception) or 1 :: <exception class path>. *)
 From Coq Require Import List ZArith Bool String.
-From PV Require Import Base.Exn Model.DocstringTyping Model.Docstring Spec.DocstringSpec Gen.Docstring.
+From PV Require Import Base.Exn Model.DocstringTyping Model.Docstring Model.DocstringClass Spec.DocstringSpec Gen.Docstring.
 Import ListNotations.
 Open Scope string_scope.
 Open Scope Z_scope.
@@ -37,6 +37,16 @@ Definition eval_case (extra : list string) (l : list fcase) : list Z :=
       b2z (doc_wf (f_doc fc));
       b2z (no_hiding scope) ]
     ++ enc (decorate docstring_prog fc) ++ [-2]) l.
+
+(* a module that decorates classes of a chain (Model/DocstringClass.v): the harness hands over EVERY class with ALL its own
+   methods, each with its own parsed __doc__, and how each decorated class is decorated (None: class decorator, Some names:
+   function decorator on those attributes); the model decides which functions are reached and with which docstring.
+   Same result format as eval_case; an attribute that does not exist: the module raises AttributeError, no function.    *)
+Definition eval_chain_case (extra : list string) (req : bool) (ds : list (klass * option (list string))) : list Z :=
+  match reached_all req ds with
+  | Ok l => eval_case extra l
+  | Raise e => enc (@Raise unit e) ++ [-1]
+  end.
 
 (* ---- the typing model alone: eval(text, globals(), context) and == ------------------------------- *)
 
